@@ -21,7 +21,7 @@ Cars == {20, 80}
 
 Init == stages \in Patterns /\ lockouts \in BOOLEAN /\ trains = <<>>
 AddTrain == /\ Len(trains) < MaxTrains
-            /\ \E d \in {"E", "W"}, g \in Gaps, c \in Cars, b \in (IF HasJ THEN {0, 1} ELSE {0}) :
+            /\ \E d \in {"E", "W"}, g \in Gaps, c \in Cars, b \in (IF HasJ THEN {0, 1, 2} ELSE {0}) :      \* 2 = both branches (two origin / destination links)
                  trains' = Append(trains, [dir |-> d, ncars |-> c, bo |-> b, bd |-> b,
                                            depart |-> (IF trains = <<>> THEN 120 ELSE trains[Len(trains)].depart) + g])
             /\ UNCHANGED <<stages, lockouts>>
